@@ -594,6 +594,78 @@ theorem moveChan_inv (g : G) (o n : Nat) (h : Inv g) : Inv (moveChan g o n).1 :=
     exact seat_inv g _ _ _ h (seatable_spec g _ _ _ hs)
   · exact h
 
+
+/-! ## pull: whatever was written to the saved channels in between, the assignment gives the starting graph back -/
+
+/-- restore-by-assignment after ANY intermediate graph that differs from the saved one only on saved channels -/
+theorem restoreSaved_framed (g g' : G) (keys : List Nat) (hs : SameStatic g g')
+    (hf : ∀ x, x ∉ keys → g'.conns x = g.conns x) : restoreSaved g' (savedKeys g keys) = g := by
+  apply G.eq_of_static (hs.trans (restoreSaved_static _ _))
+  intro x
+  rw [restoreSaved_conns g (savedKeys g keys) g' (by
+    intro p hp
+    simp only [savedKeys, List.mem_map] at hp
+    obtain ⟨c, _, rfl⟩ := hp
+    rfl) x]
+  have hk : (savedKeys g keys).map Prod.fst = keys := by
+    simp [savedKeys, List.map_map, Function.comp_def]
+  rw [hk]
+  split
+  · rfl
+  · rename_i hx
+    exact hf x hx
+
+theorem connect1_frame (g : G) (a b x : Nat) (hxa : x ≠ a) (hxb : x ≠ b) : (connect1 g a b).1.conns x = g.conns x := by
+  unfold connect1
+  split
+  · rfl
+  · split
+    · split
+      · simp [updF, hxa, hxb]
+      · rfl
+    · rfl
+
+theorem disconnect1_frame (g : G) (a b x : Nat) (hxa : x ≠ a) (hxb : x ≠ b) : (disconnect1 g a b).conns x = g.conns x := by
+  unfold disconnect1
+  split
+  · dsimp only
+    split <;> simp [updF, hxa, hxb]
+  · rfl
+
+theorem runPrims_frame (keys : List Nat) : ∀ (ps : List Prim) (g : G), primsWithin keys ps = true →
+    SameStatic g (runPrims g ps) ∧ ∀ x, x ∉ keys → (runPrims g ps).conns x = g.conns x := by
+  intro ps
+  induction ps with
+  | nil => intro g _; exact ⟨.refl g, fun _ _ => rfl⟩
+  | cons p ps ih =>
+    intro g hw
+    simp only [primsWithin, List.all_cons, Bool.and_eq_true] at hw
+    have hrest : primsWithin keys ps = true := by simpa [primsWithin] using hw.2
+    cases p with
+    | connect a b =>
+      simp only [List.contains_eq_mem, decide_eq_true_eq, Bool.and_eq_true] at hw
+      have := ih (connect1 g a b).1 hrest
+      simp only [runPrims, List.foldl_cons] at this ⊢
+      refine ⟨(connect1_static g a b).trans this.1, fun x hx => ?_⟩
+      rw [this.2 x hx]
+      exact connect1_frame g a b x (fun e => hx (e ▸ hw.1.1)) (fun e => hx (e ▸ hw.1.2))
+    | disconnect a b =>
+      simp only [List.contains_eq_mem, decide_eq_true_eq, Bool.and_eq_true] at hw
+      have := ih (disconnect1 g a b) hrest
+      simp only [runPrims, List.foldl_cons] at this ⊢
+      refine ⟨(disconnect1_static g a b).trans this.1, fun x hx => ?_⟩
+      rw [this.2 x hx]
+      exact disconnect1_frame g a b x (fun e => hx (e ▸ hw.1.1)) (fun e => hx (e ▸ hw.1.2))
+
+/-- a pull leaves every connection list exactly as it was, order included -/
+theorem pullAttempt_eq (g : G) (keys : List Nat) (ps : List Prim) : (pullAttempt g keys ps).1 = g := by
+  unfold pullAttempt
+  split
+  · rename_i hw
+    obtain ⟨hs, hf⟩ := runPrims_frame keys ps g hw
+    exact restoreSaved_framed g _ keys hs hf
+  · rfl
+
 theorem step_inv (g : G) (op : Op) (h : Inv g) : Inv (step g op).1 := by
   cases op with
   | connect a bs => exact connect_inv g a bs h
@@ -607,6 +679,7 @@ theorem step_inv (g : G) (op : Op) (h : Inv g) : Inv (step g op).1 := by
   | reorder c l => exact reorder_inv g c l h
   | restoreInsert a b => exact restoreInsert_inv g a b h
   | moveChan o n => exact moveChan_inv g o n h
+  | pullAttempt keys ps => simp only [step]; rw [pullAttempt_eq]; exact h
 
 theorem run_inv (g : G) (ops : List Op) (h : Inv g) : Inv (run g ops) := by
   unfold run
